@@ -15,6 +15,7 @@ EXPLANATION = (
     "T: every line of fill(t) has no trailing space, fits (C02, first-fit) and is its own paragraph in the second run, so it "
     "comes back unchanged. U (not applicable to static analysis): the relation between two runs itself - for optimal-fit and "
     "for force-broken Unicode words it is not decided."
+    " (R2) same rule as C05.R5; the hyphen splitter and the ASCII-space separator are genuine findings recorded in KNOWN_FINDINGS.txt (a cut escape sequence is re-measured by the second fill)."
 )
 ASSUMPTIONS = ["A-rustc", "the derivation from C01/C05/C09/C02 clauses to fill(fill(t)) = fill(t) is a paper argument"]
 LEVEL_TEXT = (
@@ -38,6 +39,10 @@ def run(prog, rep):
     guarded(rep, "C09.R1", "crate", lambda: C09._use_set(prog, rep))
     guarded(rep, "C09.R2", C09.WSL, lambda: C09._every_path_pushes(prog, rep))
     guarded(rep, "C09.R3", C09.FSP, lambda: C09._join(prog, rep))
+    # no fragment boundary inside an escape sequence (same rule as C05.R5): the second fill sees the pieces of a cut
+    # sequence on different lines, measures them differently and breaks elsewhere
+    guarded(rep, "C14.R2", "crate", lambda: C05._escape_aware(
+        prog, rep, rule="C14.R2", consequence="filling the filled text again re-measures the cut pieces and moves the breaks"))
     for l in ("C02", "C11.R3", "C10", "C12.R3", "C12.R7"):
         st = lemmas.status(prog, l)
         if st == "failed":
